@@ -73,6 +73,12 @@ CLAIMED['C06'] = dict(
    note='Trusted: clang AST, sa/valueflow.py, SQL reader. Not decided: values after arbitrary setter sequences (value level). Five known findings, all one root cause (1.x bpm / bpmAnalyzed columns, see C01).',
    ref='DESIGN.md 4 C06')
 
+CLAIMED['C07'] = dict(
+   technique='value-flow interpretation of the crate queries and mutators down to the parsed SQL (relation roles, event order of reads / validator throws / writes, path conditions), checked against a relation-role slot table',
+   text='Decides the relation-role and guard clauses behind the forest property, for both implementations: T1 each structural query (parent, children, descendants, lookups, roots) reads the relation that carries its meaning - table, column bound to the handle id, column returned - children and parent read one relation in opposite directions, root queries use the root convention; T2 set_parent reads the closure relation of the moved crate and a throw depends on it before the first write; T3 every create / rename entry point reaches a throw of crate_invalid_name that depends on the name before its first write, and all validators test the same things; T4 no statement assigns the id of Crate / List / Playlist (positive control in the DDL); T5 named sentinels equal the SQL literals; T6 a changed parentListId comes with a re-assigned nextListId and a successor taken from another row is first checked (un-conjoined) to be a sibling; T7 re-parenting deletes the old position on every path.',
+   note='Trusted: clang AST, sa/valueflow.py, spec/roles.json (semantic slots from the repository documentation). Not decided: equality of the query results as sets after arbitrary histories. Four genuine defects repaired (children/descendants swapped, two missing cycle guards, stale successor).',
+   ref='DESIGN.md 4 C07')
+
 NOT_APPLICABLE = {
  'C19': 'numerical result of integer/floating arithmetic over all inputs (ceiling division, quantisation, minimality, monotonicity): no structural clause beyond the division guard, which C15-U6 covers; a sound decision needs an arithmetic solver or proof (different family)',
  'C20': 'floating-point numerical behaviour of beat-grid extrapolation (bracketing, tempo preservation, idempotence up to rounding); only the iterator arithmetic is shape-visible and is covered by C15-U3',
